@@ -13,6 +13,8 @@ static struct aws_cbor_encoder *s_enc;
 static struct aws_cbor_decoder *s_dec;
 static uint8_t *s_dec_src; /* exact-size copy the decoder reads */
 static bool s_raw;         /* decoder over raw bytes: every line is W */
+static bool s_big;         /* bigmode: multi-MiB encoder, `enc` prints a digest, no decoder ops */
+static bool s_used;        /* an op has been executed in this case */
 static bool s_cached;      /* the decoder holds a peeked element (tracked from the API results) */
 static bool s_sticky;      /* a call failed with anything but UNEXPECTED_TYPE: the decoder's error is sticky */
 
@@ -40,6 +42,8 @@ static void s_reset(void) {
     }
     s_enc = aws_cbor_encoder_new(hc_allocator());
     s_raw = false;
+    s_big = false;
+    s_used = false;
 }
 
 static void s_new_decoder(const uint8_t *p, size_t n, bool raw, bool null_src) {
@@ -242,6 +246,11 @@ int main(void) {
     s_reset();
     while ((n = hc_next_line(t)) >= 0) {
         const char *op = t[0];
+        bool was_used = s_used;
+        if (strcmp(op, "case")) {
+            s_used = true;
+        }
+        (void)was_used;
         if (!strcmp(op, "case")) {
             s_reset();
             hc_case_begin(t[1]);
@@ -294,6 +303,20 @@ int main(void) {
             aws_cbor_encoder_write_break(s_enc);
         } else if (!strcmp(op, "reset") && n == 1) {
             aws_cbor_encoder_reset(s_enc);
+        } else if (!strcmp(op, "bigmode") && n == 1) {
+            if (was_used || s_big) {
+                printf("bad-op\n");
+            } else {
+                s_big = true;
+            }
+        } else if (s_big && !strcmp(op, "enc") && n == 1) {
+            struct aws_byte_cursor c = aws_cbor_encoder_get_encoded_data(s_enc);
+            printf("W encsum len=%zu fnv=%016" PRIx64 "\nW cap %zu\n", c.len, s_fnv1a(c.ptr, c.len),
+                   ((struct enc_view *)s_enc)->encoded_buf.capacity);
+        } else if (s_big && (!strcmp(op, "load") || !strcmp(op, "dec") || !strcmp(op, "decode_all") || !strcmp(op, "all") ||
+                             !strcmp(op, "peek") || !strcmp(op, "pop") || !strcmp(op, "consume") || !strcmp(op, "skip") ||
+                             !strcmp(op, "rem"))) {
+            printf("bad-op\n");
         } else if (!strcmp(op, "enc") && n == 1) {
             struct aws_byte_cursor c = aws_cbor_encoder_get_encoded_data(s_enc);
             printf("W enc ");
